@@ -63,6 +63,21 @@ CHECKS = {
    text="Every tracked call kind (and nested / textually identical combinations, pairs of kinds) in every placement (main, function called 0/1/2 times, nested functions, fold body, for_while body) in every layout (single line, token per line LF/CRLF, tabs, block and non-ASCII line comments, render options): every AssertL marker of the debug build must resolve to the kind and (whitespace-insensitive) text of a reachable call site, distinct markers = reachable call sites, the plain build has none, dbg! values reconstruct to R2's value, and the debug build gives the same verdict as the plain build on every witness - also over the whole depth-1 term family.",
    note="Call-site byte ranges come from the harness renderer. Reachability = main plus transitively called functions.",
    ref="§6-C14"),
+ "C02": dict(
+   technique="bounded-exhaustive enumeration of witness-flow programs x witness maps through the real satisfy / encoder / decoder / Bit Machine, intrinsic oracle",
+   text="Every way a witness can go uninspected (17 flows: `_`, unused variable, partially destructured, passed to / returned by a function, wrapped in Left/Right/Some/tuple/array/list, ignored match-arm payload, dbg!, cast, block result, plus fully / partially inspected controls) x a type set x 1-2 (thorough 3) witnesses x the complete product of per-witness value alphabets, each name missing and the empty map, plus the shipped examples: when satisfy returns a program its CMR must equal commit()'s, every witness value must have its node's type, the encoding must decode to the same CMR and the Bit Machine must return without panicking.",
+   note="One known finding (known_findings.json, D1): the unpruned satisfy() encoding is not decodable when a witness is under-constrained. Programs are classified under-constrained by simplicity-lang alone (principal types of the encoded commitment).",
+   ref="§6-C02"),
+ "C05": dict(
+   technique="bounded-exhaustive enumeration of (program, witness map) states through the real satisfy + Bit Machine against the nominal typing rule",
+   text="Programs with 0..3 (thorough 4, and 8) witnesses over a 20-type pool containing every same-layout pair of the cast table, each witness compared with a literal (non-zero and zero variants); every map in which each name independently is exact / another value / absent / a same-layout value of another type / another layout / the value of the next name, with 0..2 extra names: satisfy must fail exactly when a supplied declared name has a value of another (nominal) type, and otherwise the run succeeds exactly when every supplied value equals its literal and every absent one has a zero literal.",
+   note="Absent witnesses are zero-filled by the library; extra names are ignored.",
+   ref="§6-C05"),
+ "C18": dict(
+   technique="bounded-exhaustive enumeration of (branchy program, witness map, environment) states, differential oracle pruned vs unpruned on the real code",
+   text="All 81 pairs of arm kinds (arm-local witnesses, time-lock jets on witnesses and constants, panic, nothing, under-constrained witness, nested match) x 4 selector values x maps (all witnesses, taken arm only, other arm only, none; two values per witness) x 5 environments (lock-time / sequence variants), plus the depth-1 term family: satisfy_with_env(.., Some(env)) must return a program with the committed CMR that decodes and succeeds under env, and must fail exactly when satisfy fails or the unpruned program fails under env.",
+   note="The unpruned reference verdict executes satisfy()'s in-memory redeem program under the same environment.",
+   ref="§6-C18"),
 }
 
 NOT_BUILT_REASON = "check not built yet in this round (planned as bounded-exhaustive exploration, DESIGN.md §6); not claimed until it runs"
